@@ -447,6 +447,12 @@ func c07ImportMap() *explore.Scenario {
 				r.Count("specs_returned", 1)
 			} else {
 				r.Count("errors_returned", 1)
+				// a map taken from a valid ClientHello is a valid capture: refusing it is allowed only
+				// because the format has no way to carry one of its extensions, not because a value in
+				// it was misread
+				if mode == 0 && !strings.Contains(err.Error(), "unsupported extension") && !strings.Contains(err.Error(), "is required") {
+					r.Violate("C07|importmap|valid-capture-refused|"+errClass(err), "%s: ImportTLSClientHello refuses the map of a valid ClientHello: %v", what, err)
+				}
 			}
 			r.Obs = fmt.Sprintf("mode%d|err=%v", mode, err != nil)
 			r.Nontrivial = true
